@@ -30,12 +30,10 @@ def families(tier):
     add("F2-two-leaves", f2)
     # F3: plain block with one child of every shape x flag
     add("F3-block-child", [[Rule("a *", [Rule(shape(s, "c"), **f)])] for s in range(len(SHAPES)) for f in CHILD_FLAGS])
-    # F4: flagged block with a plain or ordered child
-    # (an %ordered block that moves is removed and re-created, which also destroys 'permanent' children; that
-    #  interaction is outside the reference expectation, so permanent children are paired with non-ordered blocks)
+    # F4: flagged block with a plain, ordered, permanent or ignore_changes child
+    # (an %ordered block that moves is removed and re-created; its children are then written anew, whatever their logic)
     add("F4-flagged-block", [[Rule("a *", [Rule("c *", **cf)], **bf)]
-                             for bf in BLOCK_FLAGS for cf in ({}, {"ordered": True}, {"logic": "permanent"})
-                             if not (bf.get("ordered") and cf.get("logic") == "permanent")])
+                             for bf in BLOCK_FLAGS for cf in ({}, {"ordered": True}, {"logic": "permanent"}, {"logic": "ignore_changes"})])
     # F5: block with two children: a plain one of every shape and a flagged one
     # (a block whose content is rewritten as a whole has only %rewrite child rules, as in every shipped rulebook;
     #  mixing %rewrite and ordinary child rules in one block is outside the documented meaning of %rewrite)
@@ -77,8 +75,7 @@ def families(tier):
                               for f1 in LEAF_FLAGS for f2 in LEAF_FLAGS if not (f1.get("ordered") and f2.get("ordered"))])
         # F10: flagged block x flagged child, all shapes of child
         add("F10-block-flag-pairs", [[Rule("a *", [Rule(shape(s, "c"), **cf)], **bf)]
-                                     for bf in BLOCK_FLAGS[1:] for cf in CHILD_FLAGS[1:] for s in (0, 1, 3)
-                                     if not (bf.get("ordered") and cf.get("logic") == "permanent")])
+                                     for bf in BLOCK_FLAGS[1:] for cf in CHILD_FLAGS[1:] for s in (0, 1, 3)])
         # F11: two blocks, each with a child
         add("F11-two-blocks", [[Rule("a *", [Rule(shape(s, "c"), **f)]), Rule("b *", [Rule("d *")])]
                                for s in (0, 1) for f in CHILD_FLAGS])
